@@ -60,6 +60,8 @@ struct PFut {
   fut: Box<dyn DynFut>,
   wf: Arc<WakeFlag>,
   is_send: bool,
+  /// a batch send whose items go out over several polls
+  batch: bool,
 }
 
 pub struct Cfg {
@@ -254,7 +256,7 @@ fn cancelled_waiter_prologue(st: &mut St, cfg: &Cfg) {
     };
     let wf = WakeFlag::new(o);
     st.hs[i].futs += 1;
-    st.futs.push(PFut { o, h: i, fut, wf, is_send: !recv_side });
+    st.futs.push(PFut { o, h: i, fut, wf, is_send: !recv_side, batch: false });
     let k = st.futs.len() - 1;
     poll_fut(st, k);
     st.quiesce();
@@ -479,6 +481,11 @@ fn send_op(st: &mut St, i: usize, cfg: &Cfg) {
   if st.hs[i].consumed || (info.fut_excl && st.hs[i].futs > 0) {
     return;
   }
+  // single owner: while a batch send future of this handle is pending (its items go out over several polls),
+  // the task does not start another send on the same handle - their relative order would be unspecified
+  if st.futs.iter().any(|f| f.h == i && f.is_send && f.batch) {
+    return;
+  }
   let rejected = st.hs[i].closed || st.live(false) == 0;
   let space = st.space();
   let batch_bias = cfg.profile == "batch";
@@ -533,7 +540,7 @@ fn send_op(st: &mut St, i: usize, cfg: &Cfg) {
       _ => unreachable!(),
     };
     st.hs[i].futs += 1;
-    st.futs.push(PFut { o, h: i, fut, wf, is_send: true });
+    st.futs.push(PFut { o, h: i, fut, wf, is_send: true, batch: fop.contains("batch") });
     if st.rng.random_bool(0.8) {
       let k = st.futs.len() - 1;
       poll_fut(st, k);
@@ -633,7 +640,7 @@ fn recv_op(st: &mut St, i: usize, cfg: &Cfg) {
       _ => unreachable!(),
     };
     st.hs[i].futs += 1;
-    st.futs.push(PFut { o, h: i, fut, wf, is_send: false });
+    st.futs.push(PFut { o, h: i, fut, wf, is_send: false, batch: false });
     if st.rng.random_bool(0.8) {
       let k = st.futs.len() - 1;
       poll_fut(st, k);
